@@ -51,7 +51,7 @@ def lean_ty(t):
     if t == BOOL:
         return 'Bool'
     if isinstance(t, tuple) and t[0] == 'List':
-        return 'List (%s)' % lean_ty(t[1])
+        return 'List (%s)' % lean_ty(t[1] or STR)
     raise ValueError(t)
 
 
@@ -250,6 +250,9 @@ class FnTr:
                     raise Unsupported(node, 'use of the constant parameter %s as a value' % node.id)
                 return mangle(node.id), env[node.id].ty
             raise Unsupported(node, 'name %s is not a parameter / local' % node.id)
+        if isinstance(node, ast.List) and not node.elts:
+            # an empty list of strs / of bytes (both `List (List Nat)`); which of the two is fixed by the first append
+            return '([] : List (List Nat))', LIST(None)
         if isinstance(node, ast.List):
             if len(node.elts) != 1 or isinstance(node.elts[0], ast.Starred):
                 raise Unsupported(node, 'list display with other than one element')
@@ -459,7 +462,7 @@ class FnTr:
                     and f.value.value in ('', b''):
                 want = STR if f.value.value == '' else BYTES
                 a, ta = self.ex(node.args[0], env)
-                if ta != LIST(want):
+                if ta not in (LIST(want), LIST(None)):
                     raise Unsupported(node, 'join of a %s by an empty %s' % (ta, want))
                 return '(PyRtC06.joinEmpty %s)' % a, want
             if f.attr == 'split' and len(node.args) == 1 and isinstance(node.args[0], ast.Constant) \
@@ -521,6 +524,15 @@ class FnTr:
                 if isinstance(x, (ast.Return, ast.Break, ast.Continue, ast.Raise)):
                     raise Unsupported(x, 'return / break / continue / raise inside a loop or try block')
 
+    def same_ty(self, n, new, old, st, where):
+        """the kind of `n` at the end of a branch / loop body against its kind before: equal, or the kind of an empty
+        list display fixed by an append -> the kind afterwards"""
+        if new == old or old == LIST(None) and isinstance(new, tuple):
+            return new
+        if new == LIST(None) and isinstance(old, tuple):
+            return old
+        raise Unsupported(st, '%s changes its type in %s' % (n, where))
+
     def state(self, names):
         if len(names) == 1:
             return mangle(names[0])
@@ -553,10 +565,10 @@ class FnTr:
             if t:
                 lst, arg = t
                 a, ta = self.as_seq(*self.ex(arg, env), st)
-                if env[lst].ty != LIST(ta):
+                if env[lst].ty not in (LIST(ta), LIST(None)) or ta not in (STR, BYTES):
                     raise Unsupported(st, 'append of a %s to a %s' % (ta, env[lst].ty))
                 env2 = dict(env)
-                env2[lst] = Var(env[lst].ty, nonempty=True)
+                env2[lst] = Var(LIST(ta), nonempty=True)
                 return 'let %s := %s ++ [%s]\n%s' % (mangle(lst), mangle(lst), a, self.stmts(rest, env2, k))
             raise Unsupported(st, 'expression statement')
         if isinstance(st, ast.Assign):
@@ -596,25 +608,36 @@ class FnTr:
             c = self.truth(st.test, env)
             if c is True or c is False:
                 return self.stmts((st.body if c else st.orelse) + rest, env, k)
+            g = self.guard_of(st.test, env)        # `if k in D:`: inside the body `k` is known to be in the declared set
+
+            def guarded(body, kk):
+                if g:
+                    self.guards.append(g)
+                try:
+                    return self.stmts(body, env, kk)
+                finally:
+                    if g:
+                        self.guards.pop()
             if self.returns(st.body) and k is None:
-                return 'if %s then\n%s\nelse\n%s' % (c, ind(self.stmts(st.body, env, None)),
+                return 'if %s then\n%s\nelse\n%s' % (c, ind(guarded(st.body, None)),
                                                     self.stmts(st.orelse + rest, env, None))
             self.no_escape(st.body + st.orelse)
             names = self.assigned(st.body + st.orelse, env)
             if not names:
                 raise Unsupported(st, 'if statement without effect')
 
+            res_ty = {n: env[n].ty for n in names}
+
             def fin(e2):
                 for n in names:
-                    if e2[n].ty != env[n].ty:
-                        raise Unsupported(st, '%s changes its type in one branch' % n)
+                    res_ty[n] = self.same_ty(n, e2[n].ty, res_ty[n], st, 'one branch')
                 return self.state(names)
             env2 = dict(env)
+            then_t, else_t = ind(guarded(st.body, fin)), ind(self.stmts(st.orelse, env, fin))
             for n in names:
-                env2[n] = Var(env[n].ty)
+                env2[n] = Var(res_ty[n])
             return 'let %s := (if %s then\n%s\nelse\n%s)\n%s' % (
-                self.state(names), c, ind(self.stmts(st.body, env, fin)), ind(self.stmts(st.orelse, env, fin)),
-                self.stmts(rest, env2, k))
+                self.state(names), c, then_t, else_t, self.stmts(rest, env2, k))
         if isinstance(st, ast.For):
             if st.orelse or not isinstance(st.target, ast.Name) or st.target.id in env:
                 raise Unsupported(st, 'for loop with else / pattern target / shadowing target')
@@ -633,16 +656,17 @@ class FnTr:
                 # Python iterates over the LIVE object: appending to it inside the loop is not a fold over a snapshot
                 raise Unsupported(st, 'the loop body changes a variable of the iterated expression')
 
+            res_ty = {n: env[n].ty for n in names}
+
             def fin(e2):
                 for n in names:
-                    if e2[n].ty != env[n].ty:
-                        raise Unsupported(st, '%s changes its type in the loop' % n)
+                    res_ty[n] = self.same_ty(n, e2[n].ty, res_ty[n], st, 'the loop')
                 return self.state(names)
             body = self.stmts(st.body, envb, fin)
             env2 = dict(env)
             rb = self.rebound(st.body)
             for n in names:                      # what the body binds besides is not visible after the loop
-                env2[n] = Var(env[n].ty, nonempty=env[n].nonempty and n not in rb)
+                env2[n] = Var(res_ty[n], nonempty=env[n].nonempty and n not in rb)
             return 'let %s := %s.foldl (fun %s %s =>\n%s) %s\n%s' % (
                 self.state(names), it, self.state(names), mangle(st.target.id), ind(body), self.state(names),
                 self.stmts(rest, env2, k))
@@ -706,16 +730,17 @@ class FnTr:
         if lst in names:
             raise Unsupported(st, 'the loop body changes the list it walks (%s)' % lst)
 
+        res_ty = {n: env[n].ty for n in names}
+
         def fin(e2):
             for n in names:
-                if e2[n].ty != env[n].ty:
-                    raise Unsupported(st, '%s changes its type in the loop' % n)
+                res_ty[n] = self.same_ty(n, e2[n].ty, res_ty[n], st, 'the loop')
             return self.state(names)
         text = self.stmts(body, envb, fin)
         env2 = dict(env)
         rb = self.rebound(body)
         for n in names:
-            env2[n] = Var(env[n].ty, nonempty=env[n].nonempty and n not in rb)
+            env2[n] = Var(res_ty[n], nonempty=env[n].nonempty and n not in rb)
         return 'let %s := (PyRtC06.pairsFrom1 %s).foldl (fun %s (%s, %s) =>\n%s) %s\n%s' % (
             self.state(names), mangle(lst), self.state(names), mangle(va), mangle(vn), ind(text), self.state(names),
             self.stmts(rest, env2, k))
@@ -753,10 +778,11 @@ class FnTr:
         if not names:
             raise Unsupported(st, 'try statement without effect')
 
+        res_ty = {n: env[n].ty for n in names}
+
         def fin(e2):
             for n in names:
-                if e2[n].ty != env[n].ty:
-                    raise Unsupported(st, '%s changes its type in the try statement' % n)
+                res_ty[n] = self.same_ty(n, e2[n].ty, res_ty[n], st, 'the try statement')
             return self.state(names)
         # S1 with the lookup replaced by the bound value
         repl = ast.Name(id=hv, ctx=ast.Load())
@@ -774,7 +800,7 @@ class FnTr:
         env2 = dict(env)
         rb = self.rebound(st.body + h.body)
         for n in names:
-            env2[n] = Var(env[n].ty, nonempty=env[n].nonempty and n not in rb)
+            env2[n] = Var(res_ty[n], nonempty=env[n].nonempty and n not in rb)
         return 'let %s := (match PyRtC06.hexGet %s.%s %s with\n  | some %s =>\n%s\n  | none =>\n%s)\n%s' % (
             self.state(names), TABLES_NS, self.hexmaps[sub.value.id], key, hv, ind(ok, 2), ind(bad, 2),
             self.stmts(rest, env2, k))
